@@ -181,6 +181,23 @@ pub fn run(args: &Args, rep: &mut Report, which: Which) {
                 err = Some(format!("error: listset exit {:?}: {}", ls.code, ls.stderr_tail()));
             }
             let names: Vec<String> = String::from_utf8_lossy(&ls.stdout).lines().map(|s| s.to_string()).collect();
+            // the catalogue as the binary lists it: "sample<TAB>contig name" per contig, verbatim
+            if err.is_none() && !names.is_empty() {
+                let lc = cli::run(std::process::Command::new(ragc.as_ref().unwrap()).arg("listctg").arg(&path).args(&names), cli::TIMEOUT);
+                let want: Vec<String> = set
+                    .samples
+                    .iter()
+                    .flat_map(|s| s.contigs.iter().filter(|c| !c.1.is_empty()).map(move |c| format!("{}\t{}", s.name, c.0)))
+                    .collect();
+                let got: Vec<String> = String::from_utf8_lossy(&lc.stdout).lines().map(|l| l.to_string()).collect();
+                rep.count("cli_listctg_lines_compared", got.len() as u64);
+                if !lc.ok() {
+                    err = Some(format!("error: listctg exit {:?}: {}", lc.code, lc.stderr_tail()));
+                } else if names.len() == set.samples.len() && got != want {
+                    let pos = got.iter().zip(want.iter()).position(|(a, b)| a != b).unwrap_or(got.len().min(want.len()));
+                    err = Some(format!("names: listctg differs from the input catalogue at line {}: got {:?}, expected {:?}", pos, got.get(pos), want.get(pos)));
+                }
+            }
             for s in &names {
                 if err.is_some() {
                     break;
